@@ -614,7 +614,7 @@ def stream_sem(ctx: Ctx, emit_cases_done: list[tuple[dict[str, Any], list[str], 
 		if all(t in int_names + bool_names + ['true', 'false'] or re.fullmatch(r'[0-9]+', t) for t in texts.values()) and ' float ' not in d['enc'] and ' other ' not in d['enc']:
 			todo.append((d, texts))
 	rng.shuffle(todo)
-	todo = todo[:ctx.scale(250, 2500)]
+	todo = todo[:ctx.scale(250, 1200)]
 	work = ctx.tmpdir('tranp-verif-sem-')
 	cases_in = []
 	for d, texts in todo:
@@ -687,7 +687,7 @@ def stream_emit(ctx: Ctx) -> Stream:
 	forced = forced_pairs(rng)
 	items = list(forced)
 	depth = ctx.scale(6, 10)
-	for i in range(ctx.scale(300, 3000)):
+	for i in range(ctx.scale(300, 2000)):
 		items.append(('random', ot_gen(rng, rng.choice([T_INT, T_INT, T_BOOL, T_BOOL, T_FLOAT]), 1 + i % depth, mixed=i % 4 == 3)))
 	cases = []
 	for i in range(0, len(items), 40):
